@@ -622,6 +622,10 @@ func genProc(r *Rand, n int, tier string, w *bufio.Writer) {
 			}
 			if r.Chance(1, 6) {
 				w.WriteString("sync\n")
+				if r.Chance(1, 2) {
+					// an event (possibly one that is buffered as incomplete) gets connected by another route
+					fmt.Fprintf(w, "conn %d\n", evs[r.Intn(len(evs))].id)
+				}
 			}
 		}
 		w.WriteString("sync\n")
